@@ -20,6 +20,8 @@ pub struct PanicRec {
 }
 
 pub static PANICS: Mutex<Vec<PanicRec>> = Mutex::new(Vec::new());
+/// set once some operation of this case has been declared hung: the database is wedged, later waits are short
+pub static HANG_SEEN: std::sync::atomic::AtomicBool = std::sync::atomic::AtomicBool::new(false);
 
 pub fn install_panic_hook() {
     std::panic::set_hook(Box::new(|info| {
@@ -207,11 +209,15 @@ impl OpHandle {
             if self.poll() {
                 break;
             }
-            let limit = match first_panic() {
+            let mut limit = match first_panic() {
                 Some(p) => deadline.min(p.at.saturating_duration_since(t0) + Duration::from_millis(2500)),
                 None => deadline,
             };
+            if HANG_SEEN.load(std::sync::atomic::Ordering::SeqCst) {
+                limit = limit.min(Duration::from_secs(4));
+            }
             if t0.elapsed() > limit {
+                HANG_SEEN.store(true, std::sync::atomic::Ordering::SeqCst);
                 self.result = Some(OpRes::Hang);
                 break;
             }
